@@ -58,16 +58,26 @@ Qed.
 Lemma is_hardlink_cong a b : st_mode a = st_mode b -> st_linkname a = st_linkname b ->
   is_hardlink a = is_hardlink b.
 Proof.
-  intros Em El. unfold is_hardlink, AbsDest.is_reg, st_is_dir, is_special. rewrite Em, El. reflexivity.
+  intros Em El. unfold is_hardlink, is_node, st_is_dir. rewrite Em, El. reflexivity.
 Qed.
 
 Lemma is_reg_cong a b : st_mode a = st_mode b -> AbsDest.is_reg a = AbsDest.is_reg b.
 Proof. intros Em. unfold AbsDest.is_reg, st_is_dir, is_special. rewrite Em. reflexivity. Qed.
 
-Lemma is_hardlink_reg s : is_hardlink s = true -> AbsDest.is_reg s = true /\ st_linkname s <> [].
+(* (name kept; since hard links of devices and fifos: a further name of ANY non-directory,
+   non-symlink inode) *)
+Lemma is_hardlink_reg s : is_hardlink s = true -> is_node s = true /\ st_linkname s <> [].
+Proof. apply is_hardlink_node. Qed.
+
+Lemma is_node_cong a b : st_mode a = st_mode b -> is_node a = is_node b.
+Proof. apply is_node_mode_eq. Qed.
+
+(* Converge.is_linkable (type neither S_IFDIR nor S_IFLNK) is AbsDest.is_node *)
+Lemma conv_linkable_node s : Converge.is_linkable s = true -> is_node s = true.
 Proof.
-  unfold is_hardlink. rewrite andb_true_iff, negb_true_iff. intros [H1 H2]. split; auto.
-  intros E. rewrite E in H2. discriminate.
+  unfold Converge.is_linkable, is_node, st_is_dir, mode_is_dir, mode_is_symlink, unix_type_of_gomode.
+  destruct (has_bits (st_mode s) ModeDir); [discriminate|].
+  destruct (has_bits (st_mode s) ModeSymlink); [discriminate|]. reflexivity.
 Qed.
 
 Lemma nolink_not_hardlink s : st_linkname s = [] -> is_hardlink s = false.
@@ -83,8 +93,8 @@ Qed.
 
 Lemma links_canon_ok B : links_canon B -> AbsDest.links_ok B.
 Proof.
-  intros H sb bb Hin Hl. destruct (H sb bb Hin Hl) as (st & bt & H1 & H2 & H3 & H4 & _ & _ & H5).
-  exists st, bt. auto.
+  intros H sb bb Hin Hl. destruct (H sb bb Hin Hl) as (st & bt & H1 & H2 & H3 & H4 & _ & Hm & H5).
+  exists st, bt. repeat split; auto. intros Hr. rewrite (is_reg_cong st sb); auto. apply Hm.
 Qed.
 
 (* canonical links are honest: a link entry carries the metadata of the entry it names
@@ -381,13 +391,13 @@ Proof.
     destruct (mode_is_dir (st_mode s)) eqn:Ed; auto. exfalso. apply Hn. apply unix_type_dir; auto. }
   split.
   { intros Hty Hcr'. rewrite (Hcr Hcr'); [reflexivity|]. right.
-    apply unix_type_dir in Hty. unfold is_hardlink, AbsDest.is_reg, st_is_dir. rewrite Hty. reflexivity. }
+    apply unix_type_dir in Hty. unfold is_hardlink, is_node, st_is_dir. rewrite Hty. reflexivity. }
   split.
   { intros Hr. apply Hb. apply conv_reg_abs_reg. unfold Converge.is_reg. rewrite Hr. apply N.eqb_refl. }
   split; [auto|]. split; [auto|].
   intros Hcr' Hty. rewrite (Hcr Hcr'); [reflexivity|]. destruct Hty as [Hty|Hty].
   - left. unfold Converge.is_reg. rewrite Hty. reflexivity.
-  - right. apply unix_type_dir in Hty. unfold is_hardlink, AbsDest.is_reg, st_is_dir. rewrite Hty. reflexivity.
+  - right. apply unix_type_dir in Hty. unfold is_hardlink, is_node, st_is_dir. rewrite Hty. reflexivity.
 Qed.
 
 (* a link entry that is unchanged has an unchanged target: the old listing holds a canonical link
@@ -406,7 +416,7 @@ Proof.
   destruct (HlA a ba Ha Hha) as (at_ & bat & Hat & Epa & Hlta & Hrta & Enta & Hma & _).
   destruct Hmeta as (M1 & M2 & M3 & M4 & M5 & M6 & M7 & _).
   destruct Hma as (N1 & N2 & N3 & N4 & N5 & N6 & N7 & _).
-  assert (Hda : st_is_dir a = false) by (apply is_reg_not_dir; apply is_hardlink_reg; auto).
+  assert (Hda : st_is_dir a = false) by (apply is_node_not_dir; apply is_hardlink_reg; auto).
   destruct (Hnd Hda) as [Esz Emt].
   exists at_, bat. split; auto. split; [congruence|]. split; [|auto].
   rewrite Ed. apply same_file_intro.
@@ -415,9 +425,9 @@ Proof.
   - intros _. rewrite N4, N5, Esz, Emt, M4, M5. auto.
 Qed.
 
-(* every regular entry shows the inode class of the first name of its link group, which is not
-   a link *)
-Lemma fresh_rep s c x : In (s, c) B -> AbsDest.is_reg s = true -> alookup (st_path s) R = Some x ->
+(* every entry that is neither a directory nor a symbolic link shows the inode class of the first
+   name of its link group, which is not a link *)
+Lemma fresh_rep s c x : In (s, c) B -> is_node s = true -> alookup (st_path s) R = Some x ->
   exists t, alookup (group_rep s) R = Some t /\ de_ino t = de_ino x /\ is_hardlink (de_stat t) = false.
 Proof.
   intros Hin Hreg Hx. unfold group_rep.
@@ -462,7 +472,7 @@ Proof.
   destruct (alookup (st_path s1) R) as [x1|] eqn:X1; [|discriminate].
   destruct (alookup (st_path s2) R) as [x2|] eqn:X2; [|discriminate].
   simpl in F1, F2. inversion F1; inversion F2; subst d1 d2. simpl o_ino.
-  apply conv_reg_abs_reg in R1, R2.
+  apply conv_linkable_node in R1, R2.
   destruct (fresh_rep s1 c1 x1 H1 R1 X1) as (t1 & T1 & I1 & L1).
   destruct (fresh_rep s2 c2 x2 H2 R2 X2) as (t2 & T2 & I2 & L2).
   rewrite <- I1, <- I2. split.
@@ -510,10 +520,10 @@ Proof.
             de_ino erep = de_ino x /\ is_hardlink (de_stat erep) = false /\ st_xattrs srep = st_xattrs s /\
             is_hardlink srep = false).
   { unfold inode_created in Hic. apply andb_true_iff in Hic. destruct Hic as [Hc1 Hc2].
-    destruct (fresh_rep s c x Hin Hreg Hx) as (t & Ht & Hit & Htn).
+    destruct (fresh_rep s c x Hin (is_reg_is_node _ Hreg) Hx) as (t & Ht & Hit & Htn).
     unfold group_rep in *. destruct (st_linkname s) as [|l0 l] eqn:El.
     - exists s, c, t. repeat split; auto. apply nolink_not_hardlink; auto.
-    - assert (Hh : is_hardlink s = true) by (unfold is_hardlink; rewrite Hreg, El; reflexivity).
+    - assert (Hh : is_hardlink s = true) by (unfold is_hardlink; rewrite (is_reg_is_node _ Hreg), El; reflexivity).
       destruct (HlB s c Hin Hh) as (st & bt & Hst & Ep & _ & _ & Ent & Hmeta & _).
       rewrite El in Ep. rewrite Hcreg in Hc2.
       destruct (find_entry (l0 :: l) B) as [[t' ct']|] eqn:Ef; [|discriminate].
